@@ -104,6 +104,19 @@ def _try(d, pdu):
         return None
 
 
+LOOSE = [False]      # candidates(loose=True): integrity-valid frames whose PDU is not spec-conformant count too
+
+
+def _try_illegal(d, pdu):
+    """like _try, but a request with an unsupported function code is a frame too (answered with exception 01)"""
+    m = _try(d, pdu)
+    if m is None and d == S.REQ and len(pdu) >= 1 and pdu[0] not in S.SUPPORTED:
+        return {'dir': d, 'fc': pdu[0], 'illegal': True}
+    if m is None and LOOSE[0] and len(pdu) >= 1:
+        return {'dir': d, 'fc': pdu[0], 'malformed': True}
+    return m
+
+
 def _rtu_frame_at(d, data, pos, lenient_diag=True):
     """(frame, None) / (None, 'incomplete') / (None, 'bad')"""
     if len(data) - pos < 2:
@@ -150,7 +163,7 @@ def parse_stream(framing, d, data):
             if len(data) - pos < 6 + ln:
                 return frames, pos, None
             pdu = data[pos + 7:pos + 6 + ln]
-            m = _try(d, pdu)
+            m = _try_illegal(d, pdu)
             if m is None:
                 return frames, pos, 'mbap length inconsistent with PDU / malformed PDU'
             frames.append(Frame(pos, pos + 6 + ln, data[pos + 6], pdu, m, tid, pid))
@@ -215,7 +228,7 @@ def _ascii_frame(d, data, start, end):
     body, chk = raw[:-1], raw[-1]
     if lrc(body) != chk:
         return None
-    m = _try(d, body[1:])
+    m = _try_illegal(d, body[1:])
     if m is None:
         return None
     return Frame(start, end, body[0], body[1:], m)
@@ -239,14 +252,24 @@ def _binary_frames(d, data, start, end):
         if rd in seen or len(rd) < 2:
             continue
         seen.add(rd)
-        m = _try(d, rd[1:])
+        m = _try_illegal(d, rd[1:])
         if m is not None:
             out.append(Frame(start, end, rd[0], rd[1:], m))
     return out
 
 
-def candidates(framing, d, data):
-    """Every well-formed frame with a valid integrity check that occurs as a contiguous part of data."""
+def candidates(framing, d, data, loose=False):
+    """Every well-formed frame with a valid integrity check that occurs as a contiguous part of data.
+    loose=True (serial framings): frames whose checksum holds but whose PDU is not spec-conformant are
+    returned too, with msg = {'fc': .., 'malformed': True}."""
+    LOOSE[0] = bool(loose) and framing != 'tcp'
+    try:
+        return _candidates(framing, d, data)
+    finally:
+        LOOSE[0] = False
+
+
+def _candidates(framing, d, data):
     data = bytes(data)
     out = []
     n = len(data)
@@ -258,7 +281,7 @@ def candidates(framing, d, data):
                 for _ in range(8):
                     crc = (crc >> 1) ^ 0xA001 if crc & 1 else crc >> 1
                 if j - i >= 1 and data[j + 1] == (crc & 0xFF) and data[j + 2] == (crc >> 8):
-                    m = _try(d, data[i + 1:j + 1])
+                    m = _try_illegal(d, data[i + 1:j + 1])
                     if m is not None:
                         out.append(Frame(i, j + 3, data[i], data[i + 1:j + 1], m))
     elif framing == 'ascii':
